@@ -1,12 +1,22 @@
 #!/usr/bin/env python3
-"""Re-run every check against every seeded change (apply seeded/<id>/patch.diff to /repo, run the quick checks, undo
-straight afterwards) and refresh `checks_that_fire` in each meta.json. Nothing is committed to /repo."""
+"""Re-run every check against every seeded change and refresh `checks_that_fire` in each meta.json.
+
+Each seeded/<id>/patch.diff is applied to a scratch git worktree of /repo's HEAD (outside /repo and /verif; several in
+parallel; all removed afterwards), the quick checks run against that tree with --repo, and the worktree is reset. /repo
+itself is not touched, so this can run next to other work. (tools/seed_confirm.py — the one-time confirmation of a new
+seed — is the step that applies the change to /repo itself and undoes it straight afterwards.)
+
+usage: seed_recheck.py [-j N] [seed ids...]"""
 import glob
 import json
 import os
 import re
+import shutil
 import subprocess
 import sys
+import tempfile
+from concurrent.futures import ThreadPoolExecutor
+from queue import Queue
 
 VERIF = os.path.dirname(os.path.dirname(os.path.abspath(__file__)))
 PROPS = ["C01", "C02", "C03", "C04", "C05", "C06", "C07", "C08", "C09", "C10", "C11", "C12", "C13", "C14", "C15", "C16", "C17"]
@@ -17,35 +27,62 @@ def sh(cmd, cwd=None):
     return r.returncode, r.stdout
 
 
-def main():
-    rc, st = sh("git -C /repo status --porcelain")
-    if st.strip():
-        print("refusing: /repo has local changes")
-        return 2
-    only = set(sys.argv[1:])
-    for mp in sorted(glob.glob(os.path.join(VERIF, "seeded", "*", "meta.json"))):
-        meta = json.load(open(mp))
-        if only and meta["seed_id"] not in only:
-            continue
-        diff = os.path.join(os.path.dirname(mp), "patch.diff")
-        fired = {}
-        try:
-            rc, out = sh("git -C /repo apply %s" % diff)
+def one(mp, pool):
+    meta = json.load(open(mp))
+    diff = os.path.join(os.path.dirname(mp), "patch.diff")
+    wt = pool.get()
+    fired = {}
+    try:
+        sh("git checkout -q -- .", cwd=wt)
+        rc, out = sh("git apply %s" % diff, cwd=wt)
+        if rc != 0:
+            meta["stale"] = True
+            json.dump(meta, open(mp, "w"), indent=1)
+            return "%-7s patch no longer applies: %s" % (meta["seed_id"], out[:160])
+        meta.pop("stale", None)
+        for p in PROPS:
+            rc, out = sh("./check %s --repo %s" % (p, wt), cwd=VERIF)
             if rc != 0:
-                print(meta["seed_id"], "patch no longer applies:", out[:200])
-                meta["stale"] = True
-                continue
-            for p in PROPS:
-                rc, out = sh("./check %s --repo /repo" % p, cwd=VERIF)
-                if rc != 0:
-                    fired[p] = re.findall(r"instance: (.*)", out)
-        finally:
-            sh("git -C /repo checkout -- .")
-        meta["checks_that_fire"] = fired
-        meta["detected"] = bool(fired)
-        meta["detected_by_own_property"] = meta["breaks_property"] in fired
-        json.dump(meta, open(mp, "w"), indent=1)
-        print("%-7s own=%-5s %s" % (meta["seed_id"], meta["detected_by_own_property"], {p: [k.split("|")[0] for k in ks][:3] for p, ks in fired.items()}))
+                fired[p] = re.findall(r"instance: (.*)", out) or ["(no instance line) " + out.strip()[-160:]]
+    finally:
+        sh("git checkout -q -- .", cwd=wt)
+        pool.put(wt)
+    meta["checks_that_fire"] = fired
+    meta["detected"] = bool(fired)
+    meta["detected_by_own_property"] = meta["breaks_property"] in fired
+    json.dump(meta, open(mp, "w"), indent=1)
+    return "%-7s own=%-5s %s" % (meta["seed_id"], meta["detected_by_own_property"], {p: [k.split("|")[0] for k in ks][:3] for p, ks in fired.items()})
+
+
+def main():
+    args = sys.argv[1:]
+    jobs = 4
+    if args[:1] == ["-j"]:
+        jobs = int(args[1])
+        args = args[2:]
+    only = set(args)
+    metas = [mp for mp in sorted(glob.glob(os.path.join(VERIF, "seeded", "*", "meta.json")))
+             if not only or json.load(open(mp))["seed_id"] in only]
+    base = tempfile.mkdtemp(prefix="seedrecheck.")
+    pool = Queue()
+    wts = []
+    try:
+        for i in range(min(jobs, max(1, len(metas)))):
+            wt = os.path.join(base, "wt%d" % i)
+            rc, out = sh("git -C /repo worktree add --detach %s HEAD" % wt)
+            if rc != 0:
+                print("cannot create scratch worktree:", out)
+                return 2
+            wts.append(wt)
+            pool.put(wt)
+        with ThreadPoolExecutor(max_workers=len(wts)) as ex:
+            for line in ex.map(lambda mp: one(mp, pool), metas):
+                print(line, flush=True)
+    finally:
+        for wt in wts:
+            sh("git -C /repo worktree remove --force %s" % wt)
+        sh("git -C /repo worktree prune")
+        shutil.rmtree(base, ignore_errors=True)
     return 0
 
 
